@@ -16,7 +16,7 @@ func c09Merge(c *vk.Ctx) {
 	}
 	var jobs []Job
 	bound := -1
-	// n=2: every combination of verdicts (static accept / three kinds of rejection, reject-only-the-first, accept-only-the-first) x every script; counts vary with the COUNT scripts
+	// n=2: every combination of verdicts (static accept / three kinds of rejection, reject-only-the-first, accept-only-the-first, accept with a text) x every script; counts vary with the COUNT scripts
 	for v0 := 0; v0 < harness.C09VerdictModes; v0++ {
 		for v1 := 0; v1 < harness.C09VerdictModes; v1++ {
 			for s := 0; s < harness.C09Scripts; s++ {
@@ -36,7 +36,7 @@ func c09Merge(c *vk.Ctx) {
 	}
 	// n=3
 	b3 := -1
-	for _, vs := range [][3]int{{0, 0, 0}, {0, 1, 0}, {1, 2, 3}, {0, 0, 3}, {2, 0, 1}, {4, 5, 0}, {5, 0, 4}} {
+	for _, vs := range [][3]int{{0, 0, 0}, {0, 1, 0}, {1, 2, 3}, {0, 0, 3}, {2, 0, 1}, {4, 5, 0}, {5, 0, 4}, {6, 1, 0}, {0, 6, 2}, {6, 6, 3}} {
 		for _, s := range []int{0, 1, 2, 5, 6} {
 			jobs = append(jobs, Job{Harness: "MergeOKCount", Bound: b3, BudgetS: vk.Pick(c, 8.0, 300.0), FallbackDelay: vk.Pick(c, 3, 6), Params: map[string]int{"n": 3, "v0": vs[0], "v1": vs[1], "v2": vs[2], "k0": 1, "k1": 2, "k2": 0, "script": s}})
 		}
